@@ -4,6 +4,7 @@ use std::io::BufRead;
 use std::io::Write;
 
 mod c29;
+mod relocs;
 
 fn main() {
     std::panic::set_hook(Box::new(|_| {}));
@@ -11,6 +12,9 @@ fn main() {
     let cmd = args.get(1).map(String::as_str).unwrap_or("");
     let f: fn(&[&str]) -> String = match cmd {
         "c29" => c29::run_case,
+        "dump" => relocs::dump,
+        "c13" => relocs::c13,
+        "c12" => relocs::c12,
         _ => {
             eprintln!("unknown subcommand {cmd}");
             std::process::exit(2);
